@@ -22,6 +22,7 @@ class AnalysisError(Exception):
 ALIASES = {}
 EMBEDS = {}
 STRUCT_FIELDS = {}      # struct path -> field names in declaration order (for projecting a field out of a struct literal)
+ENUM_VARIANTS = {}      # enum path -> variant names (to recognise a variant constructor passed as a function item)
 _KNOWN_STRUCTS = None
 
 
@@ -89,9 +90,12 @@ class Facts:
         EMBEDS.clear(); EMBEDS.update(em)
         self.aliases, self.embeds = dict(al), dict(em)
         STRUCT_FIELDS.clear()
+        ENUM_VARIANTS.clear()
         for name_, a_ in self.adts.items():
             if a_.get("kind") == "struct" and a_.get("variants"):
                 STRUCT_FIELDS[name_] = [x["name"] for x in a_["variants"][0]["fields"]]
+            elif a_.get("kind") == "enum":
+                ENUM_VARIANTS[name_] = [v_["name"] for v_ in a_.get("variants", [])]
         self.fns = {name: Fn(self, name, d) for name, d in self.raw["fns"].items()}
 
     def fn(self, name):
@@ -788,6 +792,11 @@ def simplify(t):
         if base[0] == "downcast" and base[1][0] == "call" and base[1][1] == TRY_BRANCH:
             x = base[1][2][0]
             if base[2] == "Continue":
+                # `res.map(Enum::Variant)?`: the payload is that variant around the payload of res
+                if x[0] == "call" and x[1] in ("std::result::Result::<T, E>::map", "std::option::Option::<T>::map") and len(x[2]) == 2 and x[2][1][0] == "fnconst" and "::" in x[2][1][1]:
+                    adt_, _, var_ = x[2][1][1].rpartition("::")
+                    if var_ in ENUM_VARIANTS.get(adt_, ()):
+                        return ("agg", adt_, var_, (simplify(("field", ("downcast", ("call", TRY_BRANCH, (x[2][0],), base[1][3] if len(base[1]) > 3 else None), "Continue"), None, "0")),))
                 return ("payload", x)
             if base[2] == "Break":
                 return ("residual", x)
